@@ -82,8 +82,10 @@ CHECK = Check(
         "OW/Proofs/C08Frame.lean): stored_object_persists (an object at path r is unchanged by any sequence of Write / "
         "WriteSlice / Create / Load calls, arbitrary arguments and outcomes, none of which names r), load_across, "
         "write_then_load_across (T3 across intervening calls on other paths), writeSlice_then_load_across (T4 likewise). "
-        "Still not stated as one theorem: histories with SEVERAL writers to the same path (apply T9b/T9c at the last of "
-        "them; the per-position OpSpec gives each one's effect on what the previous left)",
+        "Whole histories with any number of writers to one path: history_last_write_wins (pre ++ Write :: post, Write returned "
+        "nil, post names other paths => the final Load returns that view) and history_last_writeSlice (the last WriteSlice "
+        "replaces exactly its block of what the history before it left). Not stated: a closed form for the content after "
+        "SEVERAL WriteSlice calls to one dataset (it is the fold of the per-call block replacement)",
         "load_selection_eq_nd_slice (Load with a selection = OW/Nd Slice(starts, counts, steps) of the loaded full array, "
         "read in row-major order) needs every extent of the dataset >= 1 and a selection that picks AT LEAST ONE index in "
         "every dimension; a selection that is empty in some dimension (stop <= start, start beyond the extent) returns an "
